@@ -57,10 +57,11 @@ def rule_r2(chk, db, v):
         return any(callee_def(t).endswith("OffsetDateTime::now_utc") for _, t, _ in sl.calls)
 
     def is_exp(sl):
-        return ("PresignedUrlV2", "expires_time") in sl.fields and not is_now(sl)
+        arith = [callee_def(t) for _, t, _ in sl.calls if not flow.is_transparent(t)]
+        return ("PresignedUrlV2", "expires_time") in sl.fields and not is_now(sl) and not arith
     found = False
     for c in cmps:
-        r = c.oriented(is_now, is_exp)
+        r = c.oriented2(lambda sl: is_now(sl) and ("PresignedUrlV2", "expires_time") not in sl.fields, "PresignedUrlV2", "expires_time")
         if r is None:
             continue
         rel, te, fe = r
